@@ -26,6 +26,7 @@ THEOREMS = ['C10.view_refines_partial', 'C10.view_step', 'C10.wf_step', 'C10.cou
             'C10.view_channels', 'C10.view_channel', 'C10.view_channel_full', 'C10.view_channel_gone',
             'C10.own_part_removes', 'C10.own_kick_removes', 'C10.reconnect_clears',
             'C10.view_refines_fails_intarg', 'C10.separateModes_ignores_isupport', 'C10.param_mode_mispaired',
+            'C10.recv_isupportEv', 'C10.casemapping_hardcoded', 'C10.prefix_hardcoded',
             'C10.separateModes_render',
             'C10.rfc1459_table_ok', 'C10.sigils_not_in_nicks', 'C10.sigil_table_ok', 'C10.mode_tables_ok',
             'C10.tracked_table_ok', 'C10.chan_table_ok', 'C10.setters_in_ok', 'C10.setters_out_ok']
@@ -168,6 +169,10 @@ class PySrv(object):
             if cmd == 'WHO' and len(args) >= 1: self.pending.append(('w', args[0]))
             elif cmd == 'MODE' and len(args) == 1: self.pending.append(('m', args[0]))
             elif cmd == 'MODE' and len(args) == 2 and args[1] == '+b': self.pending.append(('b', args[0]))
+    def isupport(self):
+        return ('M', self.cfg['server'], '005', [self.botnick(), 'CHANTYPES=' + self.cfg.get('chantypes', '#&'),
+                'CHANNELLEN=%d' % self.cfg.get('channellen', 50), 'PREFIX=(ohv)@%+', 'CHANMODES=beIq,k,l,imnpstrCR',
+                'CASEMAPPING=rfc1459', 'NICKLEN=30', 'are supported by this server'])
     def join_args(self, names):
         return [names, '*', 'real name'] if self.cfg['extJoin'] else [names]
 
@@ -340,6 +345,8 @@ class PySrv(object):
             else: return []
             self.told.add(i)            # whoever the sender is, his prefix shows his hostmask
             return [('M', self.users[i].mask(), 'PRIVMSG', [to, text])]
+        if k == 'isupport':
+            return [self.isupport()]
         if k == 'names':
             sc = self.chan(a[1])
             if sc is None or not self.bot_in(sc): return []
@@ -359,7 +366,7 @@ class PySrv(object):
             self.drop_everywhere(self.bot)
             self.users[self.bot].nick = n0
             self.told = set(); self.modes_synced = set(); self.bans_synced = set(); self.pending = []
-            return [('R',), ('M', S, '001', [n0, 'Welcome'])]
+            return [('R',), ('M', S, '001', [n0, 'Welcome']), self.isupport()]
         raise ValueError(a)
 
     # -- the view the bot has to have (structured) and its canonical text (format of C10.dumpSrv)
@@ -447,6 +454,7 @@ class Real(object):
         lvl = 'ok'
         for a in self.logged:
             s = (a[0] % a[1:]) if len(a) > 1 else str(a[0])
+            if '005 converter' in s: continue        # a failing converter is logged and the token skipped (modelled)
             if 'IrcState' in s: lvl = 'state-exc'
             elif lvl == 'ok': lvl = 'irc-exc'
         return lvl, sent
@@ -459,7 +467,10 @@ class Real(object):
                                 'b': sorted(low(str(x)) for x in c.bans), 't': c.topic,
                                 'm': {k: (None if v is None else str(v)) for k, v in c.modes.items()}, 'c': c.created}
         hosts = {low(k): v for k, v in st.nicksToHostmasks.items()}
-        return {'nick': irc.nick, 'prefix': irc.prefix, 'chans': chans, 'hosts': hosts}
+        sup = st.supported
+        isup = (('s' + wire.enc_opt(sup['chantypes'])) if 'chantypes' in sup else '~') + '/' + \
+               (('n' if sup['channellen'] is None else str(sup['channellen'])) if 'channellen' in sup else '~')
+        return {'nick': irc.nick, 'prefix': irc.prefix, 'chans': chans, 'hosts': hosts, 'isup': isup}
 
 def dump_text(s):
     """format of C10.dumpBot"""
@@ -469,7 +480,7 @@ def dump_text(s):
                   ';b=' + enc_set(c['b']) + ';t=' + wire.enc(c['t']) + ';m=' +
                   ','.join(sorted(wire.enc(m) + ':' + wire.enc_opt(x) for m, x in c['m'].items())) + ';c=' + str(c['c']) + ')')
     return ('N=' + wire.enc(s['nick']) + ' P=' + wire.enc(s['prefix']) + ' C=' + ' '.join(sorted(cs)) + ' H=' +
-            ','.join(sorted(wire.enc(k) + '=' + wire.enc(m) for k, m in s['hosts'].items())))
+            ','.join(sorted(wire.enc(k) + '=' + wire.enc(m) for k, m in s['hosts'].items())) + ' I=' + s['isup'])
 
 class ModeDiff(str):
     """a difference confined to a channel's modes dict (keeps both dicts for the finding classifier)"""
@@ -533,6 +544,7 @@ def act_line(a):
     if k == 'topic': return 'act\ttopic\t%s\t%s\t%s' % (wire.enc(a[1]), wire.enc(a[2]), wire.enc(a[3]))
     if k == 'chghost': return 'act\tchghost\t%s\t%s\t%s' % tuple(wire.enc(x) for x in a[1:])
     if k == 'say': return 'act\tsay\t%s\t%s\t%s' % (wire.enc(a[1]), wire.enc(a[2]), wire.enc(a[3]))
+    if k == 'isupport': return 'act\tisupport'
     if k == 'names': return 'act\tnames\t%s' % wire.enc(a[1])
     if k == 'who': return 'act\twho\t%s' % wire.enc(a[1])
     if k == 'modeis': return 'act\tmodeis\t%s' % wire.enc(a[1])
@@ -546,8 +558,9 @@ def enc_ev(ev):
 
 def init_line(cfg):
     b = lambda x: '1' if x else '0'
-    return 'init\t%s\t%s\t%s\t%s\t%s\t%s\t%s\t%s\t%s\t%d' % (wire.enc(cfg['server']), b(cfg['multiPrefix']), b(cfg['uhnames']), b(cfg['extJoin']),
-            b(cfg['chghost']), b(cfg['whox']), wire.enc(cfg['botNick']), wire.enc(cfg['botIdent']), wire.enc(cfg['botHost']), cfg['namesPerLine'])
+    return 'init\t%s\t%s\t%s\t%s\t%s\t%s\t%s\t%s\t%s\t%d\t%s\t%s' % (wire.enc(cfg['server']), b(cfg['multiPrefix']), b(cfg['uhnames']), b(cfg['extJoin']),
+            b(cfg['chghost']), b(cfg['whox']), wire.enc(cfg['botNick']), wire.enc(cfg['botIdent']), wire.enc(cfg['botHost']), cfg['namesPerLine'],
+            wire.enc(cfg.get('chantypes', '#&')), wire.enc(str(cfg.get('channellen', 50))))
 
 # ------------------------------------------------------------------------------------------
 # generators
@@ -578,7 +591,7 @@ def gen_cfg(r, kind):
     return {'server': r.choice(['irc.srv', 'hub.example.net']), 'multiPrefix': True if kind != 'nomp' else False,
             'uhnames': r.random() < 0.4, 'extJoin': r.random() < 0.4, 'chghost': r.random() < 0.8, 'whox': r.random() < 0.6,
             'botNick': 'test', 'botIdent': 'limnoria', 'botHost': r.choice(['bot.host', 'Bot/Cloak']),
-            'namesPerLine': r.choice([1, 2, 3, 50])}
+            'namesPerLine': r.choice([1, 2, 3, 50]), 'chantypes': r.choice(['#&', '#&!+', '&#']), 'channellen': r.choice([50, 64, 200])}
 
 def _some_nick(r, S, p_bot=0.2, p_bad=0.08):
     x = r.random()
@@ -708,15 +721,22 @@ def gen_action(r, S, findings=False):
         return ('modeis', _bot_chan(r, S) if r.random() < 0.5 else _some_chan(r, S))
     if x < 0.96:
         return ('banlist', _bot_chan(r, S) if r.random() < 0.5 else _some_chan(r, S))
-    if x < 0.975:
+    if x < 0.97:
         return ('serve',)
+    if x < 0.98:
+        return ('isupport',)
     return ('reconnect',)
 
+HOSTILE_005 = ['CHANTYPES=#', 'CHANTYPES=', 'CHANTYPES', 'chantypes=&#', 'CHANNELLEN=5', 'CHANNELLEN=x', 'CHANNELLEN', 'CHANNELLEN=200',
+               'ChanTypes=#&+', 'PREFIX=(qaohv)~&@%+', 'CHANMODES=beI,k,fjl,imnpst', 'CASEMAPPING=ascii', 'MODES=x', 'MODES', 'NICKLEN=9',
+               '-CHANTYPES', 'are supported', 'x=y=z', '=']
 HOSTILE_CMDS = ['JOIN', 'PART', 'KICK', 'QUIT', 'NICK', 'MODE', 'TOPIC', '353', '352', '354', '324', '329', '332', '367',
                 'CHGHOST', '315', '366', '368', '001', '333', 'PRIVMSG', 'NOTICE', 'join', 'Nick', 'mode']
 def gen_hostile(r, S):
     cmd = r.choice(HOSTILE_CMDS)
     me = S.botnick()
+    if r.random() < 0.06:
+        return (S.cfg['server'], '005', [r.choice([me, 'x'])] + [r.choice(HOSTILE_005) for _ in range(r.randint(0, 4))] + ['are supported by this server'][:r.randint(0, 1)])
     pf = r.choice([S.cfg['server'], S.cfg['server'], me, 'x', '', 'a!b@c', 'a!b@c!d@e', '!b@c', 'a!@c', 'a!b@', 'a b!c@d', 'a!b@c\n',
                    '%s!limnoria@bot.host' % me, '%s!o@p' % casevar(r, me)] + [u.mask() for u in S.users.values()])
     pool = ([me, casevar(r, me), '', '1', '2', '#chan', '#Chan', '&local', '#chan,#Dev', '#new', '#chan ', ' #chan', '#a b', 'nochan', '@', '=', '*', '+o', '-o', '+ov', '+k',
